@@ -564,7 +564,9 @@ func romTrace(id, rom string, skip, units int) *trace.Scenario {
 	defer func() { memory.VerifBusObserver = nil }()
 	perr := machine.Try(func() {
 		// skip ahead to an instruction boundary after `skip` machine cycles
-		for i := 0; i < skip || !m.CPU.VerifAtBoundary(); i++ {
+		// (with skip = 0 the window starts at the very first machine cycle after power-on, boundary or not: a CPU that
+		// comes out of its constructor in the middle of something shows as a first unit that is not the first instruction)
+		for i := 0; i < skip || (skip > 0 && !m.CPU.VerifAtBoundary()); i++ {
 			m.Cycle()
 		}
 		st := m.CPU.VerifGet()
